@@ -276,7 +276,7 @@ pub fn check_env_seq(case: &EnvSeqCase) -> CaseResult {
 }
 
 pub fn run(c: &Ctx) {
-    c.set_rule("environments: HOME, V1, V2 each in {unset, empty, plain, 'a/b', '/abs/x', 'has space'} (216 + 9 with HOME '/', '//' or a trailing separator; quick: a seeded stratified 100), one child process per environment started with env_clear(); templates: a fixed table of error shapes and pinned examples plus seeded samples from the grammar (prefix '', '/', '~/', './' + 1-3 components of <=3 atoms in {literal, $V, ${V}} in every position). Oracle: reference expansion written from the statement (component-level equality; textual and PathBuf::push reading both admitted for a substituted absolute value). Non-trivial = template with >=2 expansions or an error shape; distinct by (environment, template). Plus a variable whose value is not valid UTF-8 (five templates: an error or exactly those bytes). Plus histories over environments: 400 (quick) / 4000 (thorough) seeded sequences of 4 environments visited inside ONE child process (setenv/unsetenv between stages), 8 templates per stage, same oracle against the environment of that moment (non-trivial = HOME differs between two consecutive stages).");
+    c.set_rule("environments: HOME, V1, V2 each in {unset, empty, plain, 'a/b', '/abs/x', 'has space'} (216 + 9 with HOME '/', '//' or a trailing separator; quick: a seeded stratified 100), one child process per environment started with env_clear(); templates: a fixed table of error shapes and pinned examples plus seeded samples from the grammar (prefix '', '/', '~/', './' + 1-3 components of <=3 atoms in {literal, $V, ${V}} in every position). Oracle: reference expansion written from the statement (component-level equality; textual and PathBuf::push reading both admitted for a substituted absolute value). Plus: Memfs::abs and Stdfs::abs refuse every template expand() refuses (19 shapes whose '~' or '$' reaches or leaves the front only through lexical cleaning) and expand '~' before cleaning. Non-trivial = template with >=2 expansions or an error shape; distinct by (environment, template). Plus a variable whose value is not valid UTF-8 (five templates: an error or exactly those bytes). Plus histories over environments: 400 (quick) / 4000 (thorough) seeded sequences of 4 environments visited inside ONE child process (setenv/unsetenv between stages), 8 templates per stage, same oracle against the environment of that moment (non-trivial = HOME differs between two consecutive stages).");
     c.assume("templates outside the documented grammar ('$V' followed by a literal, unterminated '${', stray braces) are only required not to panic");
     let envs = all_envs();
     let comps = components(3);
@@ -334,6 +334,45 @@ pub fn run(c: &Ctx) {
                         Err(Failure::new("expand|non-utf8-value-altered", format!("expand({:?}) with V1 = bytes {:?}: {} (want an error or exactly bytes {})", t, raw, r, want)))
                     };
                     c.judge("expand-non-utf8", &json!([t]), res);
+                }
+            },
+            Err(x) => c.inconclusive(&format!("envprobe child failed: {}", x)),
+        }
+    }
+    // both backends' abs() take their expansion from expand(): a template whose '~' only reaches (or leaves) the front
+    // through lexical cleaning is judged as spelled - what expand() refuses, abs() refuses
+    {
+        let mut e: BTreeMap<String, String> = BTreeMap::new();
+        e.insert("HOME".into(), "/h/user".into());
+        e.insert("V1".into(), "val".into());
+        let ts = ["./~", "./~/foo", "foo/../~/bar", "a/../~", "~/~", "foo/~", "/~", "~x", "$", "a/$/b", "${}", "$UNSET/x", "./$UNSET", "~/..", "~/../other", "~", "~/x", "$V1/x", "./$V1"];
+        let mut reqs: Vec<Value> = vec![];
+        for t in ts {
+            reqs.push(json!({"op":"expand","s":t}));
+            reqs.push(json!({"op":"abs_mem","cwd":"/cwd/here","s":t}));
+            reqs.push(json!({"op":"abs_std","cwd":"/","s":t}));
+        }
+        match probe(&e, &reqs) {
+            Ok(resp) => {
+                for (i, t) in ts.iter().enumerate() {
+                    let (ex, am, asd) = (&resp[3 * i], &resp[3 * i + 1], &resp[3 * i + 2]);
+                    c.eval(1);
+                    c.nontrivial(fp(&("abs-follows-expand", t)));
+                    c.class("abs-follows-expand");
+                    let mut res = Ok(());
+                    for (name, r) in [("Memfs::abs", am), ("Stdfs::abs", asd)] {
+                        if ex.get("err").is_some() && r.get("ok").is_some() {
+                            res = Err(Failure::new(format!("abs|accepts-what-expand-refuses|{}", name), format!("expand({:?}) = {} but {}({:?}) = {}", t, ex, name, t, r)));
+                        }
+                        // "~/.." is HOME's parent, not the cwd's neighbourhood
+                        if *t == "~/.." && r.get("ok").and_then(|x| x.as_str()) != Some("/h") {
+                            res = Err(Failure::new(format!("abs|home-expanded-after-cleaning|{}", name), format!("{}(\"~/..\") = {} want /h", name, r)));
+                        }
+                        if *t == "~/../other" && r.get("ok").and_then(|x| x.as_str()) != Some("/h/other") {
+                            res = Err(Failure::new(format!("abs|home-expanded-after-cleaning|{}", name), format!("{}(\"~/../other\") = {} want /h/other", name, r)));
+                        }
+                    }
+                    c.judge("abs-follows-expand", &json!([t]), res);
                 }
             },
             Err(x) => c.inconclusive(&format!("envprobe child failed: {}", x)),
